@@ -2,6 +2,7 @@
 package props
 
 import (
+	_ "verif/mc/props/c10"
 	_ "verif/mc/props/c14"
 	_ "verif/mc/props/c15"
 	_ "verif/mc/props/c20"
